@@ -7,10 +7,13 @@
        whole-box shifts it has accumulated; M2M/L2L displace by the child offset, M2L by the unwrapped relative offset times
        the cell size), delivers to the box EXACTLY ONCE the image at every shift of the reported cube minus [-1,1]^d;
      - the 1-D heart (window telescope [-3,2] / [-2,3]).
-   The remaining half (the 3^d adjacent copies are delivered exactly once by the wrapped lists inside the box) is in
-   Spec/GeometryPer.v when present (see the end of this file); the run-time tie is the image-aware kernel of checks/c10.py. *)
+     - the other half: the wrapped interaction / neighbour lists inside the box deliver each image of the 3^d adjacent
+       copies exactly once (partition theorem on unwrapped coordinates, distinct offset codes per list, every entry is an
+       image in range, exactly one of o / -o in the upper half), and the reported cube is the disjoint union of the two parts.
+   Not proved: ONE statement about the values in [rhs] composing the two halves through the free kernel (the run-time tie is
+   the image-aware kernel of checks/c10.py, and the C02/C08 refinement theorems hold for per = true). *)
 From Tbfmm Require Import Base.Prelude Index.MortonDefs Index.ListsDefs Tree.GroupDefs Tree.BuildDefs Exec.ExecDefs Exec.ExecPeriodicDefs
-  Spec.TopTree.
+  Index.ListsSpec Spec.TopTree Spec.GeometryPer.
 From Coq Require Import Permutation.
 Local Open Scope Z_scope.
 
@@ -50,3 +53,61 @@ Print Assumptions C10_window_telescope_1d.
 (* non-vacuity: the semantics run on the real call sequence for d = 2, k = 2 gives 24^2 - 9 = 567 images *)
 Example C10_nonvacuous : length (top_run 2 2 (top_execute 2 2 63 test_tree)) = 567%nat /\ toptree_check 2 2 = true.
 Proof. vm_compute. split; reflexivity. Qed.
+
+(* ---- the in-box half: unwrapped leaf coordinates u of an image (sigma in [-1,1]^d  <->  u in [-2^L, 2*2^L)^d) ---- *)
+Theorem C10_inbox_near_xor_far_once : forall d L ca u, (0 < d)%nat -> 1 <= L -> length ca = d -> length u = d ->
+  Forall (fun x => 0 <= x < 2 ^ L) ca -> Forall (fun x => - 2 ^ L <= x < 2 * 2 ^ L) u ->
+     (u = ca /\ ~ near_img d L ca u /\ forall l, 1 <= l <= L -> ~ far_img d L l ca u)
+  \/ (u <> ca /\ near_img d L ca u /\ forall l, 1 <= l <= L -> ~ far_img d L l ca u)
+  \/ (u <> ca /\ ~ near_img d L ca u /\
+      exists l, 1 <= l <= L /\ far_img d L l ca u /\
+                forall l', 1 <= l' <= L -> far_img d L l' ca u -> l' = l).
+Proof. exact per_near_xor_far_once. Qed.
+Print Assumptions C10_inbox_near_xor_far_once.
+
+Theorem C10_ilist_codes_nodup : forall d l idx, (0 < d)%nat -> 0 <= l -> 0 <= idx < 2 ^ (l * dz d) ->
+  NoDup (map snd (ilist_spec d true l idx)).
+Proof. exact per_ilist_codes_nodup. Qed.
+Print Assumptions C10_ilist_codes_nodup.
+
+Theorem C10_nlist_codes_nodup : forall d l upper idx, (0 < d)%nat -> 0 <= l -> 0 <= idx < 2 ^ (l * dz d) ->
+  NoDup (map snd (nlist_spec d true l upper idx)).
+Proof. exact per_nlist_codes_nodup. Qed.
+Print Assumptions C10_nlist_codes_nodup.
+
+Theorem C10_ilist_entries_are_images : forall d l cal src code, (0 < d)%nat -> 1 <= l -> length cal = d ->
+  Forall (fun x => 0 <= x < 2 ^ l) cal ->
+  In (src, code) (ilist_spec d true l (box d cal)) ->
+  exists o, length o = d /\ code = enc7 o /\ src = box d (wrap l (map2 Z.add cal o)) /\ too_close o = false
+            /\ Forall (fun x => -2 <= x <= 2 ^ l + 1) (map2 Z.add cal o).
+Proof. exact per_ilist_entries. Qed.
+Print Assumptions C10_ilist_entries_are_images.
+
+Theorem C10_ilist_entries_leaf_range : forall L l x y, 1 <= l <= L -> -2 <= x <= 2 ^ l + 1 ->
+  y / 2 ^ (L - l) = x -> - 2 ^ L <= y < 2 * 2 ^ L.
+Proof. exact per_ilist_entries_leaf. Qed.
+Print Assumptions C10_ilist_entries_leaf_range.
+
+Theorem C10_nlist_entries_are_images : forall d L ca src code, (0 < d)%nat -> 0 <= L -> length ca = d ->
+  Forall (fun x => 0 <= x < 2 ^ L) ca ->
+  In (src, code) (nlist_spec d true L false (box d ca)) ->
+  exists o, length o = d /\ code = enc3 o /\ src = box d (wrap L (map2 Z.add ca o)) /\
+            Forall (fun x => -1 <= x <= 1) o /\ o <> repeat 0 d.
+Proof. exact per_nlist_entries. Qed.
+Print Assumptions C10_nlist_entries_are_images.
+
+Theorem C10_upper_one_side : forall d o, length o = d -> Forall (fun x => -1 <= x <= 1) o -> o <> repeat 0 d ->
+  (lex_positive d o = true /\ lex_positive d (map Z.opp o) = false) \/
+  (lex_positive d o = false /\ lex_positive d (map Z.opp o) = true).
+Proof. exact per_upper_one_side. Qed.
+Print Assumptions C10_upper_one_side.
+
+(* the reported cube = the 3^d copies handled inside the box  +  the shifts handled by the top tree *)
+Theorem C10_repetition_cube_split : forall d k, (0 < d)%nat -> 0 <= k ->
+  let (lo, hi) := repetition_interval k in
+  Permutation (cube_shifts d lo hi) (cube_shifts d (-1) 1 ++ far_shifts d lo hi).
+Proof. exact repetition_cube_split. Qed.
+Print Assumptions C10_repetition_cube_split.
+
+Example C10_no_extra_level : repetition_interval (-1) = (-1, 1).
+Proof. reflexivity. Qed.
